@@ -1424,4 +1424,90 @@ theorem C04_float_lexes_mysql (a b : List Nat) (hna : a ≠ [])
     lex LexRe_mysql.cfg (a ++ 46 :: b) = .ok [.tok "FLOAT" false (a ++ 46 :: b)] :=
   C04_float_lexes _ classOKflt_live.2.1 a b hna (fun h => by rw [classOKflt_live.2.2.2.2.1] at h; cases h) ha hb
 
+/-! ### variables: `@name` over `[A-Za-z_.$]` is ONE `VARIABLE` token (mysql, mindsdb) -/
+
+def atSet : CSet := [(64, 64)]
+/-- `[A-Za-z_.$]` -/
+def varSet : CSet := [(36, 36), (46, 46), (65, 90), (95, 95), (97, 122)]
+
+def varShape : Re → Option (CSet × CSet)
+  | .alt (.seq (.set a) (.seq (.set v) (.star true (.set v')))) _ => if v == v' then some (a, v) else none
+  | _ => none
+
+theorem varShape_spec {r : Re} {a v : CSet} (h : varShape r = some (a, v)) :
+    ∃ x, r = .alt (.seq (.set a) (.seq (.set v) (.star true (.set v)))) x := by
+  unfold varShape at h
+  split at h
+  · rename_i a0 v0 v1 x
+    by_cases hc : (v0 == v1) = true
+    · simp only [hc, if_true, Option.some.injEq, Prod.mk.injEq] at h
+      simp only [beq_iff_eq] at hc
+      obtain ⟨h1, h2⟩ := h
+      subst h1; subst h2; subst hc
+      exact ⟨x, rfl⟩
+    · simp [hc] at h
+  · cases h
+
+def classOKvar (c : Cfg) : Bool :=
+  match splitAt "VARIABLE" c.rules with
+  | none => false
+  | some (pre, vr, _) =>
+    pre.all (fun r => nonNull r.re && disjointR (first r.re) atSet) && !vr.ignored &&
+    (match varShape vr.re with | some (a, v) => a.mem 64 && allMemR v varSet | none => false) &&
+    !c.ignore.mem 64
+
+/-- **`@name` is one `VARIABLE` token** — every rule list with `classOKvar`, every non-empty name over `[A-Za-z_.$]` -/
+theorem C04_variable_lexes (c : Cfg) (hc : classOKvar c = true) (name : List Nat) (hne : name ≠ [])
+    (hn : ∀ x ∈ name, inSet varSet x) : lex c (64 :: name) = .ok [.tok "VARIABLE" false (64 :: name)] := by
+  unfold classOKvar at hc
+  cases hs : splitAt "VARIABLE" c.rules with
+  | none => rw [hs] at hc; cases hc
+  | some x =>
+    obtain ⟨pre, vr, post⟩ := x
+    rw [hs] at hc
+    simp only [Bool.and_eq_true, List.all_eq_true, Bool.not_eq_true'] at hc
+    obtain ⟨⟨⟨hpre, hign⟩, hvs⟩, hig⟩ := hc
+    obtain ⟨erules, ename⟩ := splitAt_spec hs
+    have h64 : inSet atSet 64 := ⟨(64, 64), List.mem_cons_self, Nat.le_refl _, Nat.le_refl _⟩
+    have hnone : ∀ r ∈ pre, matchAt c.word r.re ⟨[], 64 :: name⟩ = none := fun r hr =>
+      matchAt_none_of_first (hpre r hr).1 (hpre r hr).2 (p := ⟨[], 64 :: name⟩) rfl h64
+    cases hsh : varShape vr.re with
+    | none => rw [hsh] at hvs; cases hvs
+    | some av =>
+      obtain ⟨A, V⟩ := av
+      rw [hsh] at hvs
+      simp only [Bool.and_eq_true] at hvs
+      obtain ⟨alt2, ere⟩ := varShape_spec hsh
+      cases name with
+      | nil => exact absurd rfl hne
+      | cons n0 tn =>
+        have hV : ∀ x ∈ n0 :: tn, V.mem x = true := fun x hx => allMemR_sound hvs.2 (hn x hx)
+        have hvm : matchAt c.word vr.re ⟨[], 64 :: n0 :: tn⟩ = some ⟨(64 :: n0 :: tn).reverse, []⟩ := by
+          rw [ere]
+          unfold matchAt
+          rw [m_alt, m_seq, m_set_cons, if_pos hvs.1]
+          have := plus_set_all c.word V [64] n0 tn hV
+          unfold matchAt at this
+          rw [this]
+          simp [Option.orElse, Pos.fin]
+        have hfm : firstMatch c.word c.rules ⟨[], 64 :: n0 :: tn⟩ = some (vr, ⟨(64 :: n0 :: tn).reverse, []⟩) := by
+          rw [erules, firstMatch_skip pre _ hnone]
+          unfold firstMatch
+          rw [hvm]
+        unfold lex
+        simp only [List.length_cons, lexLoop, hig, Bool.false_eq_true, if_false, hfm]
+        simp only [List.length_nil, Nat.zero_lt_succ, if_true]
+        cases hn' : tn.length + 1 + 1 with
+        | zero => omega
+        | succ n => simp [lexLoop, ename, hign, between]
+
+theorem classOKvar_live : classOKvar LexRe_mysql.cfg = true ∧ classOKvar LexRe_mindsdb.cfg = true := by decide +kernel
+
+theorem C04_variable_lexes_mindsdb (name : List Nat) (hne : name ≠ []) (hn : ∀ x ∈ name, inSet varSet x) :
+    lex LexRe_mindsdb.cfg (64 :: name) = .ok [.tok "VARIABLE" false (64 :: name)] :=
+  C04_variable_lexes _ classOKvar_live.2 name hne hn
+theorem C04_variable_lexes_mysql (name : List Nat) (hne : name ≠ []) (hn : ∀ x ∈ name, inSet varSet x) :
+    lex LexRe_mysql.cfg (64 :: name) = .ok [.tok "VARIABLE" false (64 :: name)] :=
+  C04_variable_lexes _ classOKvar_live.1 name hne hn
+
 end MindsVerif.Props.C04Lex
